@@ -664,6 +664,8 @@ class LoopMixin:
                 rv = o.value if o.value is not None else Val.const(None)
                 if self.is_generator:
                     rv = s2.env["__yield__"]
+                if c.returns is not None and not isinstance(c.returns, T.Union):
+                    rv = self.resolve_union(rv, s2)  # a Union value whose alternative the path fixes is returned at that alternative
                 if c.returns is not None and not isinstance(c.returns, T.Opt) and isinstance(rv.ty, T.Opt) and not rv.is_py:
                     rv = self.deopt(rv, s2, None)  # the contract promises a value: "the returned value is not None" is an obligation
                 if c.returns is not None:
